@@ -153,7 +153,7 @@ func concJobs(sp space) []driver.Job {
 		fsKind := strings.HasPrefix(kind, "oci") || strings.HasPrefix(kind, "file")
 		for _, m := range two {
 			d := 2
-			if sp.thorough && !m.observer {
+			if !m.observer || sp.thorough {
 				d = 3
 			}
 			nsh := 1
@@ -163,9 +163,16 @@ func concJobs(sp space) []driver.Job {
 			if d == 3 {
 				nsh *= 4
 			}
+			if d == 3 && m.observer {
+				nsh *= 4
+			}
 			plans = append(plans, plan{m, explore.Bounds{Dev: d}, nsh})
 			if !m.observer {
-				plans = append(plans, plan{m, explore.Bounds{Dev: 2, Preempt: true}, nsh})
+				pb := 2
+				if sp.thorough {
+					pb = 3
+				}
+				plans = append(plans, plan{m, explore.Bounds{Dev: pb, Preempt: true}, nsh})
 			}
 		}
 		for _, m := range three {
